@@ -852,6 +852,15 @@ func (e *Engine) enterLoop(fr *frame, li *loopInfo, reach string, heap Heap, con
 		e.sc.assume(implies(entryLogged, hl))
 		e.loggedTerm = e.sc.define("logged", SBool, ite(reach, hl, entryLogged))
 	}
+	{
+		entryFailed := e.failedTerm
+		if entryFailed == "" {
+			entryFailed = "false"
+		}
+		hf := e.sc.declare("failed_head", SBool)
+		e.sc.assume(implies(entryFailed, hf))
+		e.failedTerm = e.sc.define("failed", SBool, ite(reach, hf, entryFailed))
+	}
 	hreach := e.sc.declare("r_loop", SBool)
 	// the loop head is reached only if the loop was entered
 	e.sc.assume(implies(hreach, reach))
@@ -860,12 +869,13 @@ func (e *Engine) enterLoop(fr *frame, li *loopInfo, reach string, heap Heap, con
 		_, cl := e.clauseOfPred(fr.fn, c.Call.StaticCallee().Name())
 		e.sc.assumeTagged(fmt.Sprintf("L%d.%s", clLoop(cl), clLabel(cl)), implies(hreach, t))
 	}
-	li2 := liState{heap: h.clone(), phis: hv, reach: hreach, logged: e.loggedTerm}
+	li2 := liState{heap: h.clone(), phis: hv, reach: hreach, logged: e.loggedTerm, failed: e.failedTerm}
 	e.loopStates[li] = &li2
 	return hreach, h
 }
 
 type liState struct {
+	failed string
 	logged string
 	heap  Heap
 	phis  map[ssa.Value]Val
